@@ -6,7 +6,10 @@ package c17
 // (max/min/avg, latest-history 1..5, provider subset, threshold 1..N, timeout/frequency), start / pause / edit
 // by creator and strangers, providers answer the active requests with decimal strings of either sign
 // (0..10 fractional digits, magnitudes 1e-8 .. 1e15), with an error result (no output) or not at all,
-// a poor creator whose funds run out (automatic pause), blocks.
+// a poor creator whose funds run out (automatic pause; its funds can also be moved away and back), blocks, and
+// a restart: at a block boundary the zero-height preparation of "service" and "oracle" is run (what an application
+// does before it exports for a restart), both modules are exported, their stores wiped and the exported genesis
+// imported again (service first), and the history goes on.
 //
 // Oracle: every `complete_batch` event of a feed's request context is a completed batch. With the outputs the
 // harness itself submitted for that batch and the threshold in force when the batch was issued, the model
@@ -14,6 +17,16 @@ package c17
 // the float64 / 8-decimal tolerance, requires the block time as stamp, newest-first order and the
 // latest-history bound after every step; the feed's state index must mirror the request context; strangers'
 // start/pause/edit must be rejected without effect.
+//
+// Restart: the model keeps every feed (configuration, creator, request context id, stored values) and learns
+// what the preparation documents: every request context is paused with its batch closed (batches in flight are
+// abandoned: their requests are refunded and never complete), every feed is indexed as paused. All clauses then
+// run on the restored state: started again, a restored feed must append a value for every completed batch that
+// met its threshold and must follow an automatic pause of its context. A feed holding >= 2 values at a restart
+// runs into known finding F9b (C12/oracle-value-history-collapses: the import stores all values under one key):
+// for such a feed the model's value list is resynchronised from the store after the import (it must be a
+// non-empty subsequence of what was there), counted in class skipped:C12/oracle-value-history-collapses; feeds
+// with <= 1 value must come back unchanged.
 
 import (
 	"encoding/hex"
@@ -28,7 +41,11 @@ import (
 	abci "github.com/cometbft/cometbft/abci/types"
 	tmbytes "github.com/cometbft/cometbft/libs/bytes"
 	sdk "github.com/cosmos/cosmos-sdk/types"
+	banktypes "github.com/cosmos/cosmos-sdk/x/bank/types"
 	"pgregory.net/rapid"
+
+	oraclemod "mods.irisnet.org/modules/oracle"
+	servicemod "mods.irisnet.org/modules/service"
 
 	oracletypes "mods.irisnet.org/modules/oracle/types"
 	servicetypes "mods.irisnet.org/modules/service/types"
@@ -49,7 +66,7 @@ const (
 )
 
 type op struct {
-	Kind      string `json:"kind"` // create start pause edit respond block direct
+	Kind      string `json:"kind"` // create start pause edit respond block direct funds restart
 	Feed      int    `json:"feed,omitempty"`
 	Who       int    `json:"who,omitempty"`
 	Agg       string `json:"agg,omitempty"`
@@ -60,7 +77,8 @@ type op struct {
 	Freq      uint64 `json:"freq,omitempty"`
 	ReqID     string `json:"req,omitempty"`
 	Provider  int    `json:"provider,omitempty"`
-	Mode      string `json:"mode,omitempty"` // respond: value | nofield | error
+	Mode      string `json:"mode,omitempty"` // respond: value | nofield | error; direct: pause | start | kill; funds: drain | refill
+	Keep      int64  `json:"keep,omitempty"` // funds/drain: what the poor creator keeps
 	Value     string `json:"value,omitempty"`
 	Dt        int64  `json:"dt,omitempty"`
 }
@@ -86,6 +104,8 @@ type feedM struct {
 	ctxID   string // upper-case hex
 	values  []val  // newest first
 	batches map[uint64]*batchM
+	// restarts counts the genesis round trips this feed went through
+	restarts int
 }
 
 type machine struct {
@@ -93,9 +113,17 @@ type machine struct {
 	feeds []*feedM
 	// statistics
 	nBatches, nValues, nNegative, nTrim, nBelowThr, nAutoPause, nStranger, nNoField int
+	// restart statistics
+	nRestart, nRestartRunning, nRestartOpenBatch, nRestartOneValue, nRestartCollapse int
+	nValueAfterRestart, nAutoPauseAfterRestart, nTrimAfterRestart, nBelowThrAfterRestart int
+	// feeds that were running at the last restart and have not been started again by their creator (generator hint)
+	pendingStart []int
 }
 
 var providers = []int{0, 1, 2}
+
+// restartOneIn: a restart is drawn with probability 1/restartOneIn per step.
+const restartOneIn = 40
 
 func newMachine() pbt.Machine[op] {
 	c := gen.Env().NewCase()
@@ -181,6 +209,13 @@ func (m *machine) activeRequests() []liveReq {
 func (m *machine) Next(t *rapid.T) op {
 	k := rapid.IntRange(0, 99).Draw(t, "kind")
 	reqs := m.activeRequests()
+	if len(m.feeds) > 0 && rapid.IntRange(0, restartOneIn-1).Draw(t, "restart") == 0 {
+		return op{Kind: "restart", Dt: gen.Dt(t, "dt")}
+	}
+	if len(m.pendingStart) > 0 && rapid.IntRange(0, 9).Draw(t, "startagain") < 6 {
+		f := m.pendingStart[0]
+		return op{Kind: "start", Feed: f, Who: m.feeds[f].creator}
+	}
 	switch {
 	case len(m.feeds) == 0 || (k < 8 && len(m.feeds) < 4):
 		n := rapid.IntRange(1, 3).Draw(t, "nprov")
@@ -205,8 +240,15 @@ func (m *machine) Next(t *rapid.T) op {
 			o.Mode, o.Value = "value", genValue(t)
 		}
 		return o
-	case k < 70:
+	case k < 68:
 		return op{Kind: "block", Dt: gen.Dt(t, "dt")}
+	case k < 70:
+		// the poor creator's funds are moved away (the next batch of its running feeds cannot be paid: automatic
+		// pause) or topped up again
+		if rapid.IntRange(0, 2).Draw(t, "refill") == 0 {
+			return op{Kind: "funds", Mode: "refill"}
+		}
+		return op{Kind: "funds", Mode: "drain", Keep: int64(rapid.IntRange(0, 160).Draw(t, "keep"))}
 	case k < 80:
 		f := rapid.IntRange(0, len(m.feeds)-1).Draw(t, "feed")
 		who := m.feeds[f].creator
@@ -297,6 +339,9 @@ func (m *machine) Apply(o op) error {
 			r = c.Deliver(&oracletypes.MsgEditFeed{FeedName: f.name, Description: "[do-not-modify]", LatestHistory: o.Hist, Providers: m.provAddrs(o.Providers),
 				ResponseThreshold: o.Thr, Creator: m.addr(o.Who)})
 		}
+		if o.Kind == "start" && !stranger {
+			m.dropPendingStart(o.Feed)
+		}
 		if stranger {
 			m.nStranger++
 			if r.Outcome == chain.OK {
@@ -382,19 +427,48 @@ func (m *machine) Apply(o op) error {
 			}
 		}
 		events = append(events, eventsOf{r.Events})
-	case "block":
-		end := c.EndBlock()
-		if end.Outcome != chain.OK {
-			return pbt.Failf("C17/block-hook", "end block failed: %v", end)
+	case "funds":
+		// bank transfers between the poor creator (user 4) and a rich user; the model holds no balances
+		poor, rich := c.E.Users[4].Addr, c.E.Users[1].Addr
+		var msg *banktypes.MsgSend
+		if o.Mode == "refill" {
+			msg = &banktypes.MsgSend{FromAddress: rich.String(), ToAddress: poor.String(), Amount: sdk.NewCoins(sdk.NewInt64Coin("stake", 1000))}
+		} else {
+			amt := c.Balance(poor, "stake").SubRaw(o.Keep)
+			if !amt.IsPositive() {
+				break
+			}
+			msg = &banktypes.MsgSend{FromAddress: poor.String(), ToAddress: rich.String(), Amount: sdk.NewCoins(sdk.NewCoin("stake", amt))}
 		}
-		// completions in the end blocker carry the time of the block that ends
-		if err := m.process(end.Events); err != nil {
+		if r := c.Deliver(msg); r.Outcome != chain.OK {
+			return fmt.Errorf("harness: bank transfer failed: %v", r)
+		}
+	case "block":
+		if err := m.endBlock(); err != nil {
 			return err
 		}
 		c.Advance(time.Duration(o.Dt), nil)
 		begin := c.BeginBlock()
 		if begin.Outcome != chain.OK {
 			return pbt.Failf("C17/block-hook", "begin block failed: %v", begin)
+		}
+		events = append(events, eventsOf{begin.Events})
+	case "restart":
+		// a restart happens between two blocks: the block in progress ends, the application prepares and exports,
+		// the new chain imports and begins the next block
+		if err := m.endBlock(); err != nil {
+			return err
+		}
+		if err := m.check(); err != nil {
+			return err
+		}
+		if err := m.restart(); err != nil {
+			return err
+		}
+		c.Advance(time.Duration(o.Dt), nil)
+		begin := c.BeginBlock()
+		if begin.Outcome != chain.OK {
+			return pbt.Failf("C17/block-hook", "begin block after the restart failed: %v", begin)
 		}
 		events = append(events, eventsOf{begin.Events})
 	}
@@ -404,6 +478,145 @@ func (m *machine) Apply(o op) error {
 		}
 	}
 	return m.check()
+}
+
+// ctxState reads the state of a feed's request context.
+func (m *machine) ctxState(f *feedM) (servicetypes.RequestContext, bool) {
+	id, _ := hex.DecodeString(f.ctxID)
+	return m.c.E.K.Service.GetRequestContext(m.c.Ctx, id)
+}
+
+// endBlock runs the end blockers of the block in progress, feeds the model with the batch events (completions in
+// the end blocker carry the time of the block that ends) and notes automatic pauses: a context that goes from
+// running to paused inside an end blocker was paused by the service module itself.
+func (m *machine) endBlock() error {
+	was := make([]bool, len(m.feeds))
+	for i, f := range m.feeds {
+		rc, _ := m.ctxState(f)
+		was[i] = rc.State == servicetypes.RUNNING
+	}
+	end := m.c.EndBlock()
+	if end.Outcome != chain.OK {
+		return pbt.Failf("C17/block-hook", "end block failed: %v", end)
+	}
+	if err := m.process(end.Events); err != nil {
+		return err
+	}
+	for i, f := range m.feeds {
+		if rc, ok := m.ctxState(f); ok && was[i] && rc.State == servicetypes.PAUSED {
+			m.nAutoPause++
+			if f.restarts > 0 {
+				m.nAutoPauseAfterRestart++
+			}
+		}
+	}
+	return nil
+}
+
+func (m *machine) dropPendingStart(feed int) {
+	out := m.pendingStart[:0]
+	for _, f := range m.pendingStart {
+		if f != feed {
+			out = append(out, f)
+		}
+	}
+	m.pendingStart = out
+}
+
+// restart takes "service" and "oracle" through the zero-height preparation and their own genesis.
+func (m *machine) restart() error {
+	c := m.c
+	type pre struct {
+		running, open bool
+		values        []val
+	}
+	before := make([]pre, len(m.feeds))
+	anyRunning, anyOpen, anyOne, anyMany := false, false, false, false
+	for i, f := range m.feeds {
+		rc, ok := m.ctxState(f)
+		if !ok {
+			return pbt.Failf("C17/context-missing", "request context of feed %s disappeared", f.name)
+		}
+		before[i] = pre{running: rc.State == servicetypes.RUNNING, open: rc.BatchState == servicetypes.BATCHRUNNING, values: append([]val{}, f.values...)}
+		anyRunning = anyRunning || before[i].running
+		anyOpen = anyOpen || before[i].open
+		anyOne = anyOne || len(f.values) == 1
+		anyMany = anyMany || len(f.values) >= 2
+	}
+	// 1. what an application does before it exports for a restart (service first, as the modules' import order)
+	if err := func() (err error) {
+		defer func() {
+			if p := recover(); p != nil {
+				err = pbt.Failf("C17/reimport-prepare", "zero-height preparation panicked: %v", p)
+			}
+		}()
+		servicemod.PrepForZeroHeightGenesis(c.Ctx, c.E.K.Service)
+		oraclemod.PrepForZeroHeightGenesis(c.Ctx, c.E.K.Oracle)
+		return nil
+	}(); err != nil {
+		return err
+	}
+	// documented effect of the preparation: every context paused with its batch closed, feeds indexed accordingly
+	for _, f := range m.feeds {
+		if rc, _ := m.ctxState(f); rc.State != servicetypes.PAUSED || rc.BatchState != servicetypes.BATCHCOMPLETED {
+			return pbt.Failf("C17/reimport-prepare", "after the zero-height preparation the context of feed %s is %s/%s", f.name, rc.State, rc.BatchState)
+		}
+	}
+	if err := m.check(); err != nil {
+		return err
+	}
+	// 2. export, wipe, import: service first (oracle InitGenesis looks its request contexts up)
+	for _, mod := range []string{"service", "oracle"} {
+		if exported, stage, err := c.Reimport(mod); err != nil {
+			return pbt.Failf("C17/reimport-"+stage, "%s genesis round trip with %d feeds: %v\n%s", mod, len(m.feeds), err, exported)
+		}
+	}
+	// 3. the model after the restart
+	for _, f := range m.feeds {
+		f.restarts++
+		for n, b := range f.batches {
+			if !b.completed {
+				delete(f.batches, n) // abandoned: its requests are gone, it never completes
+			}
+		}
+		if len(f.values) >= 2 {
+			// known finding F9b: resynchronise, demanding only that nothing new appears and something is left
+			got := c.E.K.Oracle.GetFeedValues(c.Ctx, f.name)
+			j := 0
+			var kept []val
+			for _, g := range got {
+				for j < len(f.values) && !(f.values[j].data == g.Data && f.values[j].ts.Equal(g.Timestamp)) {
+					j++
+				}
+				if j == len(f.values) {
+					return pbt.Failf("C17/reimport-values", "feed %s came back with values %v, not a subsequence of the %d values it held", f.name, got, len(f.values))
+				}
+				kept = append(kept, f.values[j])
+				j++
+			}
+			if len(kept) == 0 {
+				return pbt.Failf("C17/reimport-values", "feed %s held %d values and came back with none", f.name, len(f.values))
+			}
+			f.values = kept
+		}
+	}
+	m.pendingStart = m.pendingStart[:0]
+	for i := range m.feeds {
+		if before[i].running {
+			m.pendingStart = append(m.pendingStart, i)
+		}
+	}
+	m.nRestart++
+	count := func(ok bool, n *int) {
+		if ok {
+			*n++
+		}
+	}
+	count(anyRunning, &m.nRestartRunning)
+	count(anyOpen, &m.nRestartOpenBatch)
+	count(anyOne, &m.nRestartOneValue)
+	count(anyMany, &m.nRestartCollapse)
+	return nil
 }
 
 type abciEvent = abci.Event
@@ -459,10 +672,19 @@ func (m *machine) process(evs []abciEvent) error {
 				if uint64(len(f.values)) > f.hist {
 					f.values = f.values[:f.hist]
 					m.nTrim++
+					if f.restarts > 0 {
+						m.nTrimAfterRestart++
+					}
 				}
 				m.nValues++
+				if f.restarts > 0 {
+					m.nValueAfterRestart++
+				}
 			} else {
 				m.nBelowThr++
+				if f.restarts > 0 {
+					m.nBelowThrAfterRestart++
+				}
 			}
 		}
 	}
@@ -607,6 +829,17 @@ func (m *machine) Classify() (bool, []string) {
 	add(m.nBelowThr > 0, "below-threshold-batch")
 	add(m.nStranger > 0, "stranger-attempt")
 	add(m.nNoField > 0, "answer-without-field")
+	add(m.nAutoPause > 0, "auto-pause")
+	add(m.nRestart > 0, "reimport")
+	add(m.nRestart >= 2, "reimport>=2")
+	add(m.nRestartRunning > 0, "reimport-with-running-feed")
+	add(m.nRestartOpenBatch > 0, "reimport-with-open-batch")
+	add(m.nRestartOneValue > 0, "reimport-with-one-stored-value")
+	add(m.nRestartCollapse > 0, "skipped:C12/oracle-value-history-collapses")
+	add(m.nValueAfterRestart > 0, "reimport-then-value")
+	add(m.nTrimAfterRestart > 0, "reimport-then-history-trim")
+	add(m.nBelowThrAfterRestart > 0, "reimport-then-below-threshold-batch")
+	add(m.nAutoPauseAfterRestart > 0, "reimport-then-auto-pause")
 	for _, f := range m.feeds {
 		if f.creator == 4 {
 			id, _ := hex.DecodeString(f.ctxID)
@@ -619,7 +852,7 @@ func (m *machine) Classify() (bool, []string) {
 	return m.nBatches >= 3 && m.nValues >= 1 && m.nTrim > 0, cl
 }
 
-const rule = "rapid state machine on the K-driver: create/start/pause/edit feeds (creator and strangers), providers answer with decimal strings of either sign / error results / not at all, blocks; completed batches observed through complete_batch events; non-trivial = history with >=3 completed batches, >=1 stored value and >=1 history trim; distinct by SHA-256 of the op list"
+const rule = "rapid state machine on the K-driver: create/start/pause/edit feeds (creator and strangers), providers answer with decimal strings of either sign / error results / not at all, blocks, restarts (zero-height preparation + genesis round trip of service and oracle); completed batches observed through complete_batch events; non-trivial = history with >=3 completed batches, >=1 stored value and >=1 history trim; distinct by SHA-256 of the op list"
 
 func init() { pbt.RegisterMachine("c17", newMachine) }
 
